@@ -1123,6 +1123,9 @@ class Lib:
         i2 = bvar("i")
         distinct = z3.ForAll([j, i2], z3.Implies(z3.And(j >= 0, j < i2, i2 < n), z3.Not(to_z3(values_equal(_askey(s.at(j)), _askey(s.at(i2)))))))
         st.assume(size >= 0, size <= n, z3.Implies(n >= 1, size >= 1), (size == n) == distinct)
+        # exactly one element  <=>  non-empty and all entries equal the first
+        allsame = z3.ForAll([j], z3.Implies(z3.And(j >= 0, j < n), to_z3(values_equal(_askey(s.at(j)), _askey(s.at(0))))))
+        st.assume((size == 1) == z3.And(n >= 1, allsame), (size == 0) == (n == 0))
         return SetV(lambda kk: mem(*key_terms(kk)), size, kty)
 
     def b_sorted(self, ex, st, args, kwargs, node):
